@@ -254,7 +254,7 @@ def gen_doc(rng, tier, robust=False, empty_spec=False):
         edits.append(['UpdateRecord', 'T', rng.choice(live), {'manualSort': rng.choice([0.25, 1.5, 2.5, 7.75, 50.0])}])
   return {'flavors': flav, 'order_by': order_by, 'sort_by': sort_by, 'group_by': group_by, 'tuple_cols': tuple_cols,
           'nprobe': nprobe, 'load': load, 'edits': edits, 'formulas_first': rng.random() < 0.6,
-          'robust': bool(robust)}
+          'robust': bool(robust), 'group_by_str': rng.random() < 0.5}
 
 
 def exhaustive_docs():
@@ -309,7 +309,8 @@ def formulas(doc):
   qmap = {'G1': 'Q1', 'G2': 'Q2'}
   gk = ''.join('%s=$%s, ' % (g, qmap[g]) for g in fgroup)
   own = ''.join('%s=$%s, ' % (g, g) for g in doc['group_by'])
-  gb_txt = 'group_by=%s' % _pyrepr(list(doc['group_by']))
+  gb_txt = 'group_by=%s' % (repr(doc['group_by'][0]) if doc.get('group_by_str') and len(doc['group_by']) == 1
+                            else _pyrepr(list(doc['group_by'])))
   def pv(k):
     if 'S1' in doc['tuple_cols'] and k == 0:
       return '_t($P1)'
@@ -508,11 +509,10 @@ def oracle_cell(doc, obs, rows, i, o):
     c = cmp_prefix(spec, [rows[a][c_] for c_, _ in spec], [rows[b][c_] for c_, _ in spec])
     if c > 0 or (c == 0 and a > b):
       return ('lookup_order', 'lookup result %r is not in key order at %r,%r' % (ordered, a, b))
-  if not spec:
-    if got == ('value',):
-      return ('order_by_id_raises', 'order_by=%r denotes row-id order but %s raises ValueError '
-              '(no sort_key for an empty sort spec)' % (doc['order_by'], o))
-    return ('order_by_id_other', 'order_by=%r: expected the documented ValueError or a result, got %r' % (doc['order_by'], got))
+  if not spec and got == ('value',):
+    # row-id order (order_by starts with "id"): the linear scan below is well defined, the code raises
+    return ('order_by_id_raises', 'order_by=%r denotes row-id order but %s raises ValueError '
+            '(no sort_key for an empty sort spec)' % (doc['order_by'], o))
   if find:
     if doc['nprobe'] == 0:
       return None if got[0] != 'ok' else ('no_probe', 'find.%s() without values returned %r' % (o, got))
@@ -556,7 +556,7 @@ def _key_eq(a, b):
 
 def docs(ctx):
   out = []
-  for _ in range(ctx.n(90, 1400)):
+  for _ in range(ctx.n(70, 1400)):
     out.append(gen_doc(ctx.rng, ctx.tier))
   for _ in range(ctx.n(6, 40)):
     out.append(gen_doc(ctx.rng, ctx.tier, empty_spec=True))
